@@ -29,8 +29,9 @@ type vsymMonS3 struct {
 	writes  []string // every mutating call, in order
 	reads   []string
 	failUp  func(key string) bool
-	failErr error      // the error an injected failure returns (default: a plain error)
-	mu      sync.Mutex // native runs only: segment and index are uploaded from different goroutines
+	failErr error                // the error an injected failure returns (default: a plain error)
+	onCall  func(op, key string) // scheduling hook, called before an upload takes effect
+	mu      sync.Mutex           // native runs only: segment and index are uploaded from different goroutines
 }
 
 func (s *vsymMonS3) lock() func() {
@@ -44,6 +45,9 @@ func (s *vsymMonS3) lock() func() {
 func newVsymMonS3() *vsymMonS3 { return &vsymMonS3{objs: map[string][]byte{}} }
 
 func (s *vsymMonS3) put(key string, body []byte) error {
+	if s.onCall != nil {
+		s.onCall("upload", key)
+	}
 	defer s.lock()()
 	if s.failUp != nil && s.failUp(key) {
 		if s.failErr != nil {
